@@ -99,6 +99,45 @@ func translateMultiExpDriver(repo string, write func(name, imports, content stri
 	extraParams["chooseStep"] = "(bestC : Int → Int)"
 	t.sb.WriteString("namespace MultiExpDriver\nopen GoIpa\n\n")
 	t.fnDecl(fd, "chooseStep", "chooseStep", false)
-	t.sb.WriteString("/-- the statements of `MultiExp` around the splitting loop -/\ndef driver : List String := [" + quoteAll(facts) + "]\n\nend MultiExpDriver\n")
+	t.sb.WriteString("/-- the statements of `MultiExp` around the splitting loop -/\ndef driver : List String := [" + quoteAll(facts) + "]\n\n")
+	// partitionScalars around its two translated regions: the selector loop body (selector.go) and the
+	// body of the chunk loop inside the parallel.Execute worker (recode.go + selector.go's digit read)
+	{
+		ps := findFunc(f, "partitionScalars")
+		var outer []string
+		nSel, nRec := 0, 0
+		for _, s := range ps.Body.List {
+			if fs, ok := s.(*ast.ForStmt); ok && fs.Init != nil && strings.HasPrefix(stmtText(fs.Init), "chunk := ") {
+				outer = append(outer, "for "+stmtText(fs.Init)+"; "+exprStr(fs.Cond)+"; "+stmtText(fs.Post)+" { <selector> }")
+				nSel++
+				continue
+			}
+			if es, ok := s.(*ast.ExprStmt); ok {
+				if c, ok := es.X.(*ast.CallExpr); ok && exprStr(c.Fun) == "parallel.Execute" && len(c.Args) == 3 {
+					fl, ok := c.Args[1].(*ast.FuncLit)
+					if !ok {
+						die("multiexpdriver: partitionScalars: the worker of parallel.Execute is not a function literal")
+					}
+					// inside the worker: the loop over i, inside it the loop over the chunks
+					ast.Inspect(fl.Body, func(n ast.Node) bool {
+						if fs, ok := n.(*ast.ForStmt); ok && fs.Init != nil && strings.HasPrefix(stmtText(fs.Init), "chunk := ") {
+							fs.Body = &ast.BlockStmt{List: []ast.Stmt{&ast.ExprStmt{X: ast.NewIdent("recodeStep")}}}
+							nRec++
+							return false
+						}
+						return true
+					})
+					outer = append(outer, "parallel.Execute("+exprStr(c.Args[0])+", "+strings.Join(strings.Fields(nodeStr(fl)), " ")+", "+exprStr(c.Args[2])+")")
+					continue
+				}
+			}
+			outer = append(outer, stmtText(s))
+		}
+		if nSel != 1 || nRec != 1 {
+			die("multiexpdriver: partitionScalars: selector loop / chunk loop not found exactly once (%d, %d)", nSel, nRec)
+		}
+		t.sb.WriteString("/-- the statements of `partitionScalars` around the selector computation and the recoding step -/\ndef partitionOuter : List String := [" + quoteAll(outer) + "]\n\n")
+	}
+	t.sb.WriteString("end MultiExpDriver\n")
 	write("MultiExpDriver.lean", "import GoIpa.Model.Loop\n", t.sb.String())
 }
